@@ -329,7 +329,10 @@ def table_entries(prog, fn, spec):
             errs.append("weight table entry (%s): %s" % (how, e))
             continue
         ctr = strip(strip(k)[2][0])
-        okc = ctr == ("param", 2) if how == "closure" else (isinstance(ctr, tuple) and ctr and ctr[0] == "mu")
+        while isinstance(ctr, tuple) and ctr and ctr[0] == "cast":
+            ctr = strip(ctr[2])
+        okc = ctr == ("param", 2) if how == "closure" else (
+            isinstance(ctr, tuple) and ctr and (ctr[0] == "mu" or (canon.is_payload(ctr) and mir.is_call(strip(ctr[1][1]), "next"))))
         if not okc:
             errs.append("weight table entry (%s): the variable is %s, not the running index" % (how, show(ctr)[:60]))
     return errs
